@@ -1612,6 +1612,29 @@ fn main() {
             let ok = ["a", "m", "z"].iter().all(|k| db.get(ReadOptions::default(), k.as_bytes()).map(|v| v == format!("{}2", k).into_bytes()).unwrap_or(false));
             println!("reads_ok={}", ok);
             println!("files_on_disk={}", v::table_numbers(&o).len());
+            // second phase: a compaction whose output is split into several tables (small max_file_size)
+            let mut o2 = raindb::DbOptions::with_memory_env();
+            o2.db_path = "db2".to_string();
+            o2.create_if_missing = true;
+            o2.max_file_size = 16 * 1024;
+            let db2 = raindb::DB::open(o2.clone()).expect("open 2");
+            let mut x: u32 = 99;
+            let mut want: Vec<(Vec<u8>, Vec<u8>)> = vec![];
+            for gen in 0..2u8 {
+                want.clear();
+                for i in 0..300u32 {
+                    let val: Vec<u8> = (0..200).map(|_| { x = x.wrapping_mul(1664525).wrapping_add(1013904223); (x >> 24) as u8 }).chain(std::iter::once(gen)).collect();
+                    let k = format!("key{:04}", i).into_bytes();
+                    db2.put(WriteOptions::default(), k.clone(), val.clone()).unwrap();
+                    want.push((k, val));
+                }
+                let _ = db2.flush_for_verif();
+                db2.compact_range(None..None);
+            }
+            let lost = want.iter().filter(|(k, val)| db2.get(ReadOptions::default(), k).map(|g| &g != val).unwrap_or(true)).count();
+            let desc = db2.get_descriptor(raindb::db::DatabaseDescriptor::SSTables).unwrap_or_default();
+            println!("split_outputs_tables={}", desc.lines().filter(|l| l.contains("(size:")).count());
+            println!("split_outputs_wrong_reads={}", lost);
         }
         // fresh_db_wal_rotation : a database that never flushed is reopened (log reused); with the background thread held its
         // memtable fills and the log is rotated; the files are copied at that moment (crash image); the image is opened and every
